@@ -1662,14 +1662,28 @@ func memWatchdog() {
 			limit = n << 20
 		}
 	}
+	// the collector works against three quarters of the limit, so that garbage
+	// of finished cases is not mistaken for unbounded growth
+	debug.SetMemoryLimit(int64(limit / 4 * 3))
 	go func() {
 		// memory in use = everything mapped minus what was given back to the OS
 		s := []metrics.Sample{{Name: "/memory/classes/total:bytes"}, {Name: "/memory/classes/heap/released:bytes"}}
+		used := func() uint64 {
+			metrics.Read(s)
+			return s[0].Value.Uint64() - s[1].Value.Uint64()
+		}
+		var lastGC time.Time
 		for {
 			time.Sleep(50 * time.Millisecond)
-			metrics.Read(s)
-			if used := s[0].Value.Uint64() - s[1].Value.Uint64(); used > limit {
-				fmt.Fprintf(os.Stderr, "memory watchdog: %d MB in use, limit %d MB\n", used>>20, limit>>20)
+			u := used()
+			if u > limit && u < limit*3/2 && time.Since(lastGC) > 2*time.Second {
+				// is it live? collect, give back, look again
+				debug.FreeOSMemory()
+				lastGC = time.Now()
+				u = used()
+			}
+			if u > limit {
+				fmt.Fprintf(os.Stderr, "memory watchdog: %d MB in use, limit %d MB\n", u>>20, limit>>20)
 				os.Exit(77)
 			}
 		}
